@@ -34,6 +34,7 @@ func init() {
 			}},
 			{"C16.lister-done", "a listing the context can stop is not taken for complete (shared with C07)", 1, c07ListerDone},
 			{"C16.verify", "verify removes exactly the invalid chunks, only with repair", 3, c16Verify},
+			{"C16.canonical-place", "local Verify and Prune treat a file as a chunk only where the store keeps that chunk (stray files with chunk-like names are left alone)", 2, c16CanonicalPlace},
 		},
 	})
 }
@@ -925,4 +926,67 @@ func c16LocalReadErrors(c *Ctx) {
 	default:
 		c.ok("LocalStore.GetChunk:read-errors", fn.Pos(), "a read error other than not-exist is returned as it is")
 	}
+}
+
+// c16CanonicalPlace: a file is treated as a chunk of the local store only where the store keeps
+// that chunk.  Verify and Prune derive the id from the base name alone; a file with a
+// chunk-like name anywhere else under the store (a backup directory, a wrong prefix) made
+// Verify report a chunk "missing" that the store never held and made Prune abort at
+// RemoveChunk(id) with the unreferenced chunks still in place.  Handing the id on (to the verify
+// workers, to RemoveChunk) therefore lies behind a test that involves the directory of the
+// walked path.
+func c16CanonicalPlace(c *Ctx) {
+	acc := func(iff *ssa.If) (bool, bool) {
+		cm, truth, ok := cmpOf(iff.Cond)
+		if !ok || (cm.op != token.EQL && cm.op != token.NEQ) {
+			return false, false
+		}
+		isDir := func(v ssa.Value) bool {
+			return hasOrigin(v, func(o string) bool { return o == "call:path/filepath.Dir#0" })
+		}
+		if !isDir(cm.x) && !isDir(cm.y) {
+			return false, false
+		}
+		eqOnTrue := (cm.op == token.EQL) == truth
+		return eqOnTrue, !eqOnTrue
+	}
+	for _, key := range []string{"LocalStore.Verify", "LocalStore.Prune"} {
+		fn := c.mustFn(key)
+		if fn == nil {
+			continue
+		}
+		n := 0
+		for _, g := range withClosures(fn) {
+			if g == fn {
+				continue // the walk callback (and the workers) are closures
+			}
+			instrsAll(g, func(_ *ssa.BasicBlock, _ int, ins ssa.Instruction) {
+				sink := ""
+				switch x := ins.(type) {
+				case *ssa.Send:
+					if typeName(x.X.Type()) == "desync.ChunkID" {
+						sink = "the id is handed to the verify workers"
+					}
+				case *ssa.Call:
+					if strings.HasSuffix(callee(x), ".RemoveChunk") && len(calls(g, named("path/filepath.Walk"))) == 0 && isWalkCallback(g) {
+						sink = "RemoveChunk(id)"
+					}
+				}
+				if sink == "" {
+					return
+				}
+				n++
+				okG, _ := guarded(g, ins, acc)
+				c.verdict(okG, key+":canonical-place", ins.Pos(), sink+" only for a file found where the store keeps that chunk", sink+" for any file whose base name parses as a chunk id, wherever it lies: a stray file with a chunk-like name makes verify report a chunk the store never held and makes prune fail at RemoveChunk with the unreferenced chunks still in place")
+			})
+		}
+		if n == 0 {
+			c.bad(key+":canonical-place", fn.Pos(), "no site found at which the walk hands an id on")
+		}
+	}
+}
+
+// isWalkCallback: a closure with the signature of filepath.WalkFunc.
+func isWalkCallback(g *ssa.Function) bool {
+	return len(g.Params) == 3 && g.Params[0].Type().String() == "string" && g.Signature.Results().Len() == 1
 }
